@@ -116,6 +116,19 @@ claim("C11", "exploration",
       TB + " sklearn PCA/KDE/StandardScaler and scipy jensenshannon trusted; edge-prone histogram scores adopted (counted).",
       "DESIGN.md 4 (C11)")
 
+claim("C06", "exploration",
+      "runtime monitoring: shadow model of confusion matrix / rates / per-rate statistics + instance wrapper on the bounds "
+      "simulation + numpy RNG tap (bounds recomputed exactly from the logged Bernoulli draws); twin histories for untracked "
+      "rates; parallelize=True vs sequential trace under sys.monitoring yield injection",
+      "Hundreds (thousands thorough) of (y_true, y_pred) sequences over decay factor, levels, burn_in, subsample, round_val, "
+      "num_mc and all 15 subsets of tracked rates: after every sample the state, all_drift_states and retraining_recs must "
+      "follow from the model's statistics and the bounds the implementation obtained; the bounds-cache discipline (which "
+      "(rate, denominator) keys simulate, which reuse) is checked call by call; every simulated bound is recomputed from the "
+      "logged draws (count, p, size, weights, percentiles).  Twin runs show untracked rates have no influence; the two-thread "
+      "parallel mode is compared with the sequential trace under injected yields (stress axis).  Sampled.",
+      TB + " numpy.random.binomial's distribution is trusted; bounds are validated exactly rather than statistically.",
+      "DESIGN.md 4 (C06)")
+
 NOT_YET = "check not built yet in this revision of /verif (planned: see DESIGN.md section 4); nothing is claimed for it"
 
 
